@@ -61,6 +61,7 @@ type Op struct {
 	MaxBytes int               `json:"maxbytes,omitempty"`
 	Strict   bool              `json:"strict,omitempty"`
 	Refs     []Ref             `json:"refs,omitempty"`
+	Refs2    []Ref             `json:"refs2,omitempty"` // second id list (stream ack+nack: Refs acked, Refs2 nacked)
 	Garbage  int               `json:"garbage,omitempty"`
 	D        int64             `json:"d,omitempty"`
 	Cfg      *SubCfg           `json:"cfg,omitempty"`
@@ -114,6 +115,8 @@ type Result struct {
 	Ids                       []uuid.UUID // ids the op addressed (ack/nack/delay)
 	MsgIDs                    []uuid.UUID // publish response
 	Stmts                     []*Stmt
+	NoWk                      bool // composite operation: the wake set is not attributed to a single model step
+	NStmts                    int  // statements counted by the fault controller during the operation
 	Before                    map[uuid.UUID]*ent.Delivery
 	After                     map[uuid.UUID]*ent.Delivery
 	SubsBefore, SubsAfter     map[uuid.UUID]*ent.Subscription
@@ -139,7 +142,7 @@ func errClass(err error) string {
 }
 
 func (w *World) snapDeliveries() map[uuid.UUID]*ent.Delivery {
-	ds, err := w.Client.Delivery.Query().All(w.Ctx)
+	ds, err := w.Client.Delivery.Query().All(qctx)
 	if err != nil {
 		w.T.Fatalf("snap: %v", err)
 	}
@@ -152,11 +155,11 @@ func (w *World) snapDeliveries() map[uuid.UUID]*ent.Delivery {
 
 // Resolve finds the delivery id for a Ref (uuid.Nil if none).
 func (w *World) Resolve(r Ref) uuid.UUID {
-	sub, err := w.Client.Subscription.Query().Where(subscription.Name(SubName(r.Sub))).Order(ent.Desc(subscription.FieldCreatedAt)).First(w.Ctx)
+	sub, err := w.Client.Subscription.Query().Where(subscription.Name(SubName(r.Sub))).Order(ent.Desc(subscription.FieldCreatedAt)).First(qctx)
 	if err != nil {
 		return uuid.Nil
 	}
-	ms, err := w.Client.Message.Query().All(w.Ctx)
+	ms, err := w.Client.Message.Query().All(qctx)
 	if err != nil {
 		return uuid.Nil
 	}
@@ -165,7 +168,7 @@ func (w *World) Resolve(r Ref) uuid.UUID {
 			N *int `json:"n"`
 		}
 		if json.Unmarshal(m.Payload, &p) == nil && p.N != nil && *p.N == r.N {
-			d, err := w.Client.Delivery.Query().Where(delivery.SubscriptionID(sub.ID), delivery.MessageID(m.ID)).First(w.Ctx)
+			d, err := w.Client.Delivery.Query().Where(delivery.SubscriptionID(sub.ID), delivery.MessageID(m.ID)).First(qctx)
 			if err == nil {
 				return d.ID
 			}
@@ -267,6 +270,9 @@ func (w *World) run(a interface {
 
 // Exec runs one operation against the implementation, appends its protocol lines (operation with
 // observations, then the dump) to the trace and returns what was observed.
+// qctx is the context of the harness's own queries (never labelled, never cancelled)
+var qctx = context.Background()
+
 func (w *World) Exec(op Op) *Result {
 	res := &Result{Op: op, T: w.Now()}
 	if w.lastDels == nil {
@@ -292,6 +298,7 @@ func (w *World) Exec(op Op) *Result {
 	w.Ctl.StartLog()
 	line := w.execInner(op, res)
 	res.Stmts = w.Ctl.StopLog()
+	res.NStmts = w.Ctl.Count()
 	for i, id := range watched {
 		select {
 		case <-aw[i]:
@@ -304,7 +311,30 @@ func (w *World) Exec(op Op) *Result {
 	dump := w.Dump() // refreshes lastDels
 	res.After = w.lastDels
 	res.SubsAfter, res.TopicsAfter, res.Msgs = w.lastSubs, w.lastTopics, w.lastMsgs
+	if w.faultMode && (res.Err != nil || strings.HasPrefix(res.Resp, "E:")) {
+		// an injected storage failure: the model treats the operation as not having happened, except
+		// that a pull whose subscription check already committed has refreshed the expiry
+		commits := 0
+		for _, s := range res.Stmts {
+			if s.Kind == "commit" && !s.Failed {
+				commits++
+			}
+		}
+		fl := fmt.Sprintf("fault t=%d ta=%d kind=%s", res.T, res.TAfter, op.K)
+		if op.K == "pull" && commits > 0 {
+			fl += " refreshed=" + Enc(SubName(op.Sub))
+		}
+		// messages of a failed publish were never stored: drop their msg lines
+		for len(w.Lines) > 0 && strings.HasPrefix(w.Lines[len(w.Lines)-1], "msg ") {
+			w.Lines = w.Lines[:len(w.Lines)-1]
+		}
+		w.Lines = append(w.Lines, fl, "dump "+dump)
+		return res
+	}
 	if line != "" {
+		if res.Op.K != op.K {
+			op = res.Op // a composite operation is reported as its last step
+		}
 		line = w.finishLine(line, op, res)
 		w.Lines = append(w.Lines, line)
 		w.Lines = append(w.Lines, "dump "+dump)
@@ -337,6 +367,9 @@ func (w *World) finishLine(line string, op Op, res *Result) string {
 	case "dl_sweep":
 		srcs, fw := attributeForwards(res.Stmts, res.Before, res.After)
 		line += " fw=" + srcFwdField(srcs, fw)
+	}
+	if res.NoWk {
+		return line + " exp=" + res.Resp
 	}
 	return line + " exp=" + res.Resp + " wk=" + IdList(sortIDs(res.Wakes))
 }
@@ -478,6 +511,42 @@ func (w *World) execInner(op Op, res *Result) string {
 			}
 			return hdr("delay") + idField + fmt.Sprintf(" d=%d", op.D)
 		}
+	case "stream_acknack":
+		// what MessageStreamer.doAcksNacks does: ack and nack in one transaction
+		var ackIDs, nackIDs []uuid.UUID
+		for _, r := range op.Refs {
+			if id := w.Resolve(r); id != uuid.Nil {
+				ackIDs = append(ackIDs, id)
+			}
+		}
+		for _, r := range op.Refs2 {
+			if id := w.Resolve(r); id != uuid.Nil {
+				nackIDs = append(nackIDs, id)
+			}
+		}
+		res.Ids = append(append([]uuid.UUID(nil), ackIDs...), nackIDs...)
+		ack := actions.NewAckDeliveries(append([]uuid.UUID(nil), ackIDs...)...)
+		nack := actions.NewNackDeliveries(append([]uuid.UUID(nil), nackIDs...)...)
+		err := w.Client.DoTx(w.Ctx, nil, func(tx *ent.Tx) error {
+			if err := ack.Execute(w.Ctx, tx); err != nil {
+				return err
+			}
+			return nack.Execute(w.Ctx, tx)
+		})
+		res.Err, res.Resp = err, errClass(err)
+		// modelled as two steps (ack, then nack) at the same instant: emit the ack line here, the nack line is returned
+		if err == nil {
+			ar, _ := ack.Results()
+			nr, _ := nack.Results()
+			w.Lines = append(w.Lines, hdr("ack")+" ids="+IdList(ackIDs)+fmt.Sprintf(" exp=ok:%d", ar.NumAcked))
+			res.Resp = fmt.Sprintf("ok:%d,%d", nr.NumNacked, nr.NumDeadLettered)
+			res.NumDL = nr.NumDeadLettered
+			res.Ids = nackIDs
+		}
+		op.K = "nack"
+		res.Op.K = "nack"
+		res.NoWk = true
+		return hdr("nack") + " ids=" + IdList(nackIDs)
 	case "dl_sweep":
 		a := actions.NewDeadLetterDeliveries(actions.DeadLetterDeliveriesParams{MaxDeliveries: op.Max})
 		err := w.run(a)
@@ -573,32 +642,51 @@ func (w *World) execInner(op Op, res *Result) string {
 func (w *World) execPublish(op Op, res *Result, hdr func(string) string) string {
 	topicName := TopicName(op.Topic)
 	var ids []uuid.UUID
-	// mirror of publisherServer.Publish: one transaction for the whole batch
-	err := w.Client.DoTx(w.Ctx, nil, func(tx *ent.Tx) error {
+	var err error
+	if op.Via == "handler" {
+		req := &pubsubpb.PublishRequest{Topic: topicName}
 		for _, m := range op.Msgs {
-			a := actions.NewPublishMessage(actions.PublishMessageParams{
-				TopicName: topicName, Payload: payloadOf(m), Attributes: m.Attrs, OrderKey: m.Key,
-			})
-			if err := a.Execute(w.Ctx, tx); err != nil {
-				return err
-			}
-			r, _ := a.Results()
-			ids = append(ids, r.ID)
+			req.Messages = append(req.Messages, &pubsubpb.PubsubMessage{Data: payloadOf(m), Attributes: m.Attrs, OrderingKey: m.Key})
 		}
-		return nil
-	})
+		var resp *pubsubpb.PublishResponse
+		resp, err = w.Api().Pub.Publish(w.Ctx, req)
+		if err == nil {
+			for _, s := range resp.MessageIds {
+				u, _ := uuid.Parse(s)
+				ids = append(ids, u)
+			}
+		}
+	} else {
+		// mirror of publisherServer.Publish: one transaction for the whole batch
+		err = w.Client.DoTx(w.Ctx, nil, func(tx *ent.Tx) error {
+			for _, m := range op.Msgs {
+				a := actions.NewPublishMessage(actions.PublishMessageParams{
+					TopicName: topicName, Payload: payloadOf(m), Attributes: m.Attrs, OrderKey: m.Key,
+				})
+				if err := a.Execute(w.Ctx, tx); err != nil {
+					return err
+				}
+				r, _ := a.Results()
+				ids = append(ids, r.ID)
+			}
+			return nil
+		})
+	}
 	res.Err, res.Resp = err, errClass(err)
+	if op.Via == "handler" {
+		res.Resp = grpcErrClass(err)
+	}
 	if err != nil {
 		ids = nil
 	}
 	res.MsgIDs = ids
 	// msg lines
 	for i, id := range ids {
-		m, merr := w.Client.Message.Query().Where(message.ID(id)).Only(w.Ctx)
+		m, merr := w.Client.Message.Query().Where(message.ID(id)).Only(qctx)
 		if merr != nil {
 			w.T.Fatalf("published message not found: %v", merr)
 		}
-		ds, _ := w.Client.Delivery.Query().Where(delivery.MessageID(id)).All(w.Ctx)
+		ds, _ := w.Client.Delivery.Query().Where(delivery.MessageID(id)).All(qctx)
 		// creation order = order of appearance in the insert statements
 		order := map[uuid.UUID]int{}
 		k := 0
